@@ -49,10 +49,7 @@ struct Rng {
 struct VC {
   uint32_t c[MAXT];
   void clear() { memset(c, 0, sizeof c); }
-  void join(const VC& o) {
-    for (int i = 0; i < MAXT; i++)
-      if (o.c[i] > c[i]) c[i] = o.c[i];
-  }
+  void join(const VC& o);
 };
 
 enum TState { T_UNUSED = 0, T_RUNNABLE, T_BLOCKED, T_FINISHED };
@@ -89,7 +86,7 @@ struct WriteRec {
   uint32_t wclk;
   uint8_t mask;       // bytes covered
   uint8_t val[8];
-  uint32_t stale_by;  // bitmask of tids whose last read of it was stale
+  uint64_t stale_by[(MAXT + 63) / 64];  // bitmask of tids whose last read of it was stale
   VC rel;
   uint32_t rd[MAXT];  // min reader clock per tid (0 none)
 };
@@ -132,6 +129,12 @@ struct Global {
   int nonce;
   uint64_t hash;
 } G;
+
+inline void VC::join(const VC& o) {
+  int n = G.nth < MAXT ? G.nth : MAXT;  // components beyond the threads created so far are zero
+  for (int i = 0; i < n; i++)
+    if (o.c[i] > c[i]) c[i] = o.c[i];
+}
 
 Result* R = nullptr;
 Result local_result;
@@ -659,7 +662,7 @@ void choose_lanes(Thread* me, Cell* c, int off, int size, bool allow_stale, int*
       for (int i = cur - 1; i >= 0; i--)
         if (c->w[i].mask & (1u << b)) { prev = i; break; }
       // fairness: do not hand out the same stale message twice in a row
-      if (prev >= 0 && (c->w[prev].stale_by & (1u << me->id))) break;
+      if (prev >= 0 && (c->w[prev].stale_by[me->id >> 6] & (1ull << (me->id & 63)))) break;
       if (prev < 0) {
         // base is the candidate below; always allowed (known to all) unless it was
         // read stale by us already
@@ -712,8 +715,8 @@ void choose_lanes(Thread* me, Cell* c, int off, int size, bool allow_stale, int*
 void note_read(Thread* me, WriteRec& w, bool stale) {
   uint32_t clk = me->vc.c[me->id];
   if (!w.rd[me->id] || w.rd[me->id] > clk) w.rd[me->id] = clk;
-  if (stale) w.stale_by |= (1u << me->id);
-  else w.stale_by &= ~(1u << me->id);
+  if (stale) w.stale_by[me->id >> 6] |= (1ull << (me->id & 63));
+  else w.stale_by[me->id >> 6] &= ~(1ull << (me->id & 63));
 }
 
 bool is_acq(int mo) { return mo == 1 || mo == 2 || mo == 4 || mo == 5; }
@@ -1420,9 +1423,9 @@ void __cxa_guard_release(uint64_t* g) {
     return;
   }
   unsigned char* b = (unsigned char*)g;
-  b[1] = 0;
   sched_point_impl(me, false);
   do_store(me, (uintptr_t)b, 1, 1, 3);
+  b[1] = 0;  // only now: a thread arriving before the store must still see "in progress"
   guard_wake(g);
 }
 void __cxa_guard_abort(uint64_t* g) {
